@@ -1,7 +1,9 @@
 """Rewrites (must exit 0) and mutants (must exit 1, repo tests still passing) used in the C18 review.
 
 usage: /venv/bin/python notes/C18-review-mutants.py [name | rewrite | mutant ...]   (scratch copy: /work/repo-C18)
-Each entry: (name, kind, [(file, old, new), ...]).  The scratch copy is restored after every run."""
+Each entry: (name, kind, [(file, old, new), ...]).  The scratch copy is restored after every run.
+C18_VERIF=<another worktree of the checks> runs the same cases against another version of the check (the "before"
+column of notes/C18-review.md was made with the base commit), C18_SKIP_TESTS=1 skips the repo's tests."""
 import os
 import subprocess
 import sys
@@ -166,6 +168,28 @@ CASES = [
                     "            if whole[: len(prefix)] != prefix:\n"
                     "                raise ValueError(f\"recording {obj.uuid} is not below the audio directory\")\n"
                     "            path = Path(*whole[len(prefix) :])\n")]),
+    ("M24-load-canonicalises-files-that-exist", "mutant", [
+        (REC, LOAD, "        path = obj.path\n        if self.audio_dir is not None:\n"
+                    "            path = Path(self.audio_dir) / obj.path\n"
+                    "            if path.exists():\n                path = path.resolve()\n")]),
+    ("M25-save-realpath-of-files-that-exist", "mutant", [
+        (REC, SAVE, "        path = obj.path\n        if self.audio_dir is not None:\n"
+                    "            source, base = Path(obj.path), Path(self.audio_dir)\n"
+                    "            if source.exists() and base.exists():\n"
+                    "                source, base = Path(os.path.realpath(source)), Path(os.path.realpath(base))\n"
+                    "            path = source.relative_to(base)\n"),
+        (REC, IMPORT_PATH, "import os\nfrom pathlib import Path\n")]),
+    ("M26-recording-set-batch-path-for-long-lists", "mutant", [
+        (A + "recording_set.py", "        recording_objects = [\n            self.recording_adapter.to_aoef(recording)\n"
+                                 "            for recording in obj.recordings\n        ]\n",
+                                 "        recording_objects = [\n            self.recording_adapter.to_aoef(recording)\n"
+                                 "            for recording in obj.recordings\n        ]\n"
+                                 "        base = self.recording_adapter.audio_dir\n"
+                                 "        if base is not None and len(recording_objects) > 64:\n"
+                                 "            import os\n\n"
+                                 "            for recording, converted in zip(obj.recordings, recording_objects):\n"
+                                 "                converted.path = Path(os.path.relpath(recording.path, base))\n"),
+        (A + "recording_set.py", "import datetime\n", "import datetime\nfrom pathlib import Path\n")]),
 ]
 
 
@@ -183,8 +207,10 @@ def run_case(name, kind, edits, seed="0"):
             return f"{name}: PATTERN NOT FOUND in {path}"
         open(p, "w").write(s.replace(old, new, 1))
     env = dict(os.environ, PYTHONPATH=f"{SCRATCH}/src")
-    t = sh(f"cd {SCRATCH} && /venv/bin/python -m pytest -q -p no:cacheprovider tests/test_io 2>&1 | tail -1", env=env)
-    tests = t.stdout.strip().splitlines()[-1] if t.stdout.strip() else "?"
+    tests = "(skipped)"
+    if not os.environ.get("C18_SKIP_TESTS"):
+        t = sh(f"cd {SCRATCH} && /venv/bin/python -m pytest -q -p no:cacheprovider tests/test_io 2>&1 | tail -1", env=env)
+        tests = t.stdout.strip().splitlines()[-1] if t.stdout.strip() else "?"
     env2 = dict(os.environ, SOUNDEVENT_SRC=f"{SCRATCH}/src",
                 VERIF_EVIDENCE_DIR=os.path.join(VERIF, ".run", "ev-mut"))
     c = sh(f"cd {VERIF} && ./check C18 --tier quick --seed {seed} 2>&1", env=env2)
